@@ -22,6 +22,7 @@ import PyTealV.Cmd.C09
 import PyTealV.Cmd.C05
 import PyTealV.Cmd.C07
 import PyTealV.Cmd.C06
+import PyTealV.Cmd.C03Opt
 namespace PyTealV.Cmd
 
 def extraCommands : List (String × (List String → String)) := [
@@ -68,7 +69,9 @@ def extraCommands : List (String × (List String → String)) := [
   ("c09-run", C09.runCmd), ("c09-wrap", C09.wrapCmd), ("c09-contract", C09.contractCmd),
   ("c05-check", C05.check),
   ("c07-descr", C07.descr), ("c07-plan", C07.planCmd), ("c07-path", C07.pathCmd),
-  ("c06-descr", C06.descrCmd), ("c06-set", C06.setCmd), ("c06-tuple", C06.tupleCmd), ("c06-uint", C06.uintCmd)
+  ("c06-descr", C06.descrCmd), ("c06-set", C06.setCmd), ("c06-tuple", C06.tupleCmd), ("c06-uint", C06.uintCmd),
+  ("c03-opt", C03Opt.opt), ("c03-iterate", C03Opt.iter), ("c03-run", C03Opt.run),
+  ("c03-pairs", C03Opt.pairs), ("c03-unopt", C03Opt.unopt)
 ]
 
 def dispatch (cmd : String) (args : List String) : Option String :=
